@@ -799,7 +799,7 @@ class Interp:
             return tuple(args)
         if k == 'CXXMemberCallExpr' and 'obj' in n and cs.startswith(('std::unordered_set::', 'std::set::')) and last in ('reserve', 'rehash'):
             return None
-        if k == 'CXXMemberCallExpr' and 'obj' in n and cs.startswith(('std::unordered_set::', 'std::set::')) and last in ('insert', 'emplace', 'erase', 'size', 'empty', 'clear'):
+        if k == 'CXXMemberCallExpr' and 'obj' in n and cs.startswith(('std::unordered_set::', 'std::set::')) and last in ('insert', 'emplace', 'erase', 'size', 'empty', 'clear', 'merge'):
             o = self.eval(fn, S[n['obj']], env)
             if isinstance(o, set):
                 args = [self.eval(fn, S[a], env) for a in n.get('args', [])]
@@ -812,6 +812,13 @@ class Interp:
                     had = args[0] in o
                     o.discard(args[0])
                     return int(had)
+                if last == 'merge' and len(args) == 1 and isinstance(args[0], (set, frozenset, list)):
+                    src_ = args[0]
+                    moved = [x for x in src_ if x not in o]          # merge splices the elements that are not present yet out of the source
+                    o.update(moved)
+                    if isinstance(src_, set):
+                        src_.difference_update(moved)
+                    return None
                 if last == 'size':
                     return len(o)
                 if last == 'empty':
